@@ -1073,8 +1073,7 @@ class slice(Stream):
     def _check_end(self):
         if self.end and self.state >= self.end:
             # we're done
-            for upstream in self.upstreams:
-                upstream._remove_downstream(self)
+            self.destroy()
 
 
 @Stream.register_api()
